@@ -4,18 +4,23 @@ DUTs (real luna classes, domain "ss"), one harness per case:
   phy  : USB3PhysicalLayer(phy=PIPEInterface(width=4)); the testbench plays the link layer on `sink`/`can_send_skp`
          (Scrambler -> CTCSkipInserter -> PHY pins, including the real `scrambler.hold` wiring) and reads the PHY
          pins `tx_data`/`tx_datak` every cycle.
-  link : USB3LinkLayer on a stub physical layer (a bundle of signals).  quick: the training phase (Rx.Detect ->
-         Polling.LFPS -> Polling.RxEQ, TSEQ traffic) with random bring-up timing; thorough additionally pays the full
-         bring-up (65536 TSEQ, TS1/TS2 and idle handshakes played by a link-partner model) to U0, where link commands,
-         keep-alives, header packets and data packets are transmitted.
+  link : USB3LinkLayer on a stub physical layer (a bundle of signals); a link-partner model written for this check plays
+         LFPS, TS1/TS2, the idle handshake, the header sequence / credit advertisement, acknowledges (or rejects, LBAD) the
+         DUT's header packets and sends header packets of its own, while the testbench offers header packets and data
+         packets (4..1024 bytes) on the protocol side: TSEQ, TS1, TS2, link commands (LGOOD/LCRD/LUP/LRTY), header
+         packets, data packet payloads and retries appear on the transmit stream, with streams of different arbiter inputs
+         back to back.  Warm resets during equaliser training restart the bring-up.  To reach U0 in a short case the
+         harness constructs the TSEQ emitter with a burst of 24..150 ordered sets instead of 65536 (constructor argument
+         overridden from the harness, nothing else touched); the thorough tier also runs cases with the unmodified length
+         (524288 cycles of TSEQ).
 
 Workload (phy): a COM-led all-control word (synchronises the reference LFSR), then segments drawn from: logical idle with
-`can_send_skp` (runs of 1..400 words, also with the permission toggling inside the run), words that look like idle
+`can_send_skp` (runs of 1..800 words, also with the permission toggling inside the run), words that look like idle
 but are not permitted (all-zero data inside a packet, `valid`=0 filler), header-packet / link-command / data-packet shaped
 bursts of tagged symbols (1..266 words; lengths chosen so that the 354-symbol boundary is crossed on the last word of a
-burst, on the first idle word, and on a word that is being replaced), COM-led words, backlogs of 2..6 owed sets followed by a
-single idle word, long mostly-idle sessions (20k-40k words: exposes a rate that is off by < 1 %), sessions in which
-bursts outrun the idle time (backlog >= 8 sets), scrambling on/off.
+burst, on the first idle word, and on a word that is being replaced), COM-led words, backlogs of 2..6 owed sets drained
+through single idle words, mostly-idle sessions of 6k-10k words, sessions in which bursts outrun the idle time
+(backlog >= 8 sets), scrambling on/off.
 
 Oracle (written from the statement and USB 3.2 6.4.3 / appendix B; rv/ref/c31_lfsr.py is the bit-serial LFSR of the
 specification, self-tested on the TSEQ vector): the word on the PHY pins `lat` cycles after a word was accepted from the link
@@ -26,24 +31,31 @@ specification, self-tested on the TSEQ vector): the word on the PHY pins `lat` c
     symbol 0) must return exactly the accepted symbols and control flags.  So nothing is dropped, altered, duplicated or
     reordered, and the keystream position is unchanged across inserted SKPs.
 Rate: with N = symbols put on the pins since the transmitter left electrical idle (all symbols, SKPs included) and S = SKP
-ordered sets so far, S <= floor(N/354) + 1 at all times (never too many), and whenever floor((N - 16)/354) - S >= 2 at a
-permitted idle word, a SKP word must appear within the next 4 permitted idle words (not too few; pairs, as luna sends
-them, and single sets both satisfy this).
+ordered sets so far, S <= floor((N + 16)/354) at all times (no set before it is scheduled), and whenever
+floor((N - 16)/354) - S >= 2 at a permitted idle word, a SKP word must appear within the next 4 permitted idle words (not too
+few; pairs, as luna sends them, and single sets both satisfy this).  16 symbols = 4 words of allowance for the phase of the
+DUT's own counter.
 
 link harness: the stream offered to the physical layer is parsed with the USB 3.2 framing rules (header packet, link command,
 data packet payload, training sets); every cycle `can_send_skp` must imply that the offered word is logical idle with `valid`
-high and not part of a packet or ordered set; logical-idle filler outside packets must carry the permission except for at most
-two words per run of filler (the arbiter's switching cycle); a word offered with `valid` low must be logical idle (the physical
-layer transmits whatever is on `sink` in every cycle).
+high and not part of a packet or ordered set; outside electrical idle, logical-idle filler between packets must carry the
+permission except for at most two words per run of filler (the arbiter's switching cycle); a word offered with `valid` low
+must be logical idle (the physical layer transmits whatever is on `sink` in every cycle).  With the phy harness (any link
+stream, permission only on filler) this composes to the statement for the real stack.
+
+Finding on the unchanged tree (findings/C33.md): `skp_backlog_forgotten_at_8_sets` — the 3-bit backlog counter wraps.
 
 Deviation from DESIGN.md 7/C33: the rate clause is judged on all transmitted symbols with a 4-word phase allowance instead
-of "within 3 cycles"; the link harness is a separate case type rather than part of every case; `can_send_skp` is not compared
-with the arbiter's `idle` signal (an equivalent permission source, e.g. `~arbiter.source.valid`, keeps the property) but with
-the framing of the offered stream; `arbiter.idle` is observed through the registry for coverage only.
+of "within 3 cycles"; the link harness is a separate case type rather than part of every case and reaches U0 already in the
+quick tier (shortened TSEQ burst); `can_send_skp` is not compared with the arbiter's `idle` signal (an equivalent permission
+source, e.g. `~arbiter.source.valid`, keeps the property) but with the framing of the offered stream; `arbiter.idle` is
+observed through the registry for coverage only.
 
 Not judged: the stream before the sync word (start-up of the registered `ready`); `tx_electrical_idle` is held low after the
-start-up; cycles in which the physical layer would not accept a word (never happens in luna; the case is then counted as
-unjudged from that point); COM in symbols 1..3 and COM followed by data symbols (C31); what the receiver does (C32).
+start-up in the phy harness; cycles in which the physical layer would not accept a word (never happens in luna; the case is
+then counted as unjudged from that point); COM in symbols 1..3 and COM followed by data symbols (C31); what the receiver
+does (C32); in the link harness: whether idle time is granted while the transmitter is in electrical idle, packets cut
+short by a change of link state (framing state restarts), the compliance pattern.
 """
 from rv.sim import Bench, Registry
 from rv.ref import c31_lfsr as L
@@ -68,7 +80,8 @@ REQUIRED_EVENTS = ["phy_words_compared", "phy_data_symbols_descrambled", "skp_wo
 ASSUMPTIONS = ["phy harness: tx_electrical_idle is low from the start-up on; the stream before the COM-led sync word is not judged",
                "SKP sets are counted against all symbols on the PHY pins (SKP symbols included) with a phase allowance of 4 words",
                "the link stream never contains K28.1, COM only in symbol 0 of an all-control word",
-               "link harness, quick tier: training phase only (U0 traffic is in the thorough tier)",
+               "link harness: TSEQ burst shortened to 24..150 ordered sets by a harness-side constructor override (thorough: also unmodified)",
+               "link harness: permission for idle filler is not demanded while tx_electrical_idle is high; <= 2 unpermitted filler words per run",
                "reference keystream = bit-serial LFSR of USB 3.2 appendix B (self-test: TSEQ symbols)"]
 
 COM, SKP, SHP, SDP, END, SLC, EPF, EDB = 0xBC, 0x3C, 0xFB, 0x5C, 0xFD, 0xFE, 0xF7, 0x7C
@@ -501,7 +514,7 @@ def judge_phy(res, script, accepted, outs, st, scrambling):
             skp_total += 1
             res.event("skp_words")
             res.event("idle_words_replaced")
-            if rate_on and sets > n_incl // LIMIT + 1:
+            if rate_on and sets > (n_incl + 4 * PHASE_SLACK_WORDS) // LIMIT:
                 res.violation("skp_sent_too_often", "cycle %d: %d SKP ordered sets after %d transmitted symbols (one per %d allowed)"
                               % (oc, sets, n_incl, LIMIT))
                 return
